@@ -415,14 +415,18 @@ class SqlImpl(TableImpl):
             # expression later or (2) are present in the final selection.
 
             original_select = query.select
+            # (3) the grouping columns are needed by a later summarize / window function
+            keep = list(needed_cols.keys()) + [
+                col._uuid for col in query.partition_by if col._uuid not in needed_cols
+            ]
             query.select = []
             used = set()
             name_in_subquery = dict()
-            name = {uid: sqa_expr[uid].name for uid in needed_cols.keys() if uid in sqa_expr}
+            name = {uid: sqa_expr[uid].name for uid in keep if uid in sqa_expr}
 
             # resolve potential column name collisions in the subquery (column names
             # are case insensitive in most databases)
-            for uid in needed_cols.keys():
+            for uid in keep:
                 if uid in sqa_expr:
                     label, c = name[uid], 0
                     while label.lower() in used:
@@ -436,7 +440,7 @@ class SqlImpl(TableImpl):
             table = cls.compile_query(table, query, sqa_expr).subquery()
             sqa_expr = {
                 uid: sqa.label(name[uid], table.columns.get(name_in_subquery[uid]))
-                for uid in needed_cols.keys()
+                for uid in keep
                 if uid in sqa_expr
             }
 
